@@ -35,7 +35,8 @@ def site_rel(rec, clause):
     s.update({"rel": rec["rel"], "transform": rec["meta"].get("transform", ""), "dtype_b": rec["meta"].get("dtype_b", ""),
               "gkind": rec.get("gkind", ""), "outb": rec.get("outb", ""),
               "exc_b": eb.split(":")[0] + (":not-unsigned-dtype" if "are not dtype" in eb else ""),
-              "ref_label_plus_npred_reaches_2^64": top})
+              "ref_label_plus_npred_reaches_2^64": top,
+              "label_ge_2^63": bool(rec["meta"].get("raw_ref_b")) and max(rec["meta"]["raw_ref_b"] + rec["meta"].get("raw_pred_b", [0])) >= 2**63})
     return s
 
 
@@ -60,6 +61,16 @@ def _injective_labels(rng, labs, dtype, style):
     elif style == "wide":                     # anywhere in [1, 2^24), products beyond 2^32
         hi = min(mx, 2**24 - 1)
         pool = rng.sample(range(max(1, hi // 2), hi + 1), n) if rng.random() < 0.5 else rng.sample(range(1, hi + 1), n)
+    elif style == "multiples":               # small labels together with multiples of 2^8 / 2^16 (+ a small label)
+        base = rng.sample(range(1, 200), n)
+        pool = []
+        for i, b in enumerate(base):
+            k = rng.choice([0, 0, 256, 512, 65536, 2**24 - 256]) if mx > 70000 else rng.choice([0, 0, 256, 512, 1024])
+            pool.append(k + (b if rng.random() < 0.5 or k == 0 else 0))
+        pool = list(dict.fromkeys([x for x in pool if 0 < x <= mx]))
+        while len(pool) < n:
+            pool.append(rng.randint(300, min(mx, 2**24 - 1)))
+            pool = list(dict.fromkeys(pool))
     else:                                     # "mixed": small and huge together
         hi = min(mx, 2**24 - 1)
         pool = [rng.randint(1, 9) * 7 + i for i in range(n // 2)] + [hi - i for i in range(n - n // 2)]
@@ -89,7 +100,7 @@ def check_C09(tier: str, v: Verdict):
         cfg = rand_cfg(rng, inputs=("UNM", "UNM", "SEM", "MAT"), matchers=("naive", "naive", "merge", "m2o"))
         sem = cfg["input"] == "SEM"
         dt = rng.choice(UINTS + (SINTS if sem else []))
-        style = rng.choice(["small", "top", "wide", "mixed"])
+        style = rng.choice(["small", "top", "wide", "mixed", "multiples", "multiples"])
         if dt in (np.int8,):
             style = "small"
         pl = [int(x) for x in np.unique(pred) if x]
@@ -103,7 +114,7 @@ def check_C09(tier: str, v: Verdict):
             fp, fr = joint, joint
         else:
             fp = _injective_labels(rng, pl, dt, style)
-            fr = _injective_labels(rng, rl, dt, rng.choice(["small", "top", "wide", "mixed"]) if dt != np.int8 else "small")
+            fr = _injective_labels(rng, rl, dt, rng.choice(["small", "top", "wide", "mixed", "multiples", "multiples"]) if dt != np.int8 else "small")
         rec = rec_evaluate(pred, ref, cfg, meta={"gen": "random", "transform": f"rename-{style}", "dtype_b": str(np.dtype(dt))})
         pb, rb = _apply(fp, pred, dt), _apply(fr, ref, dt)
         outb, resb, exc = run_evaluate(pb, rb, cfg)
